@@ -33,7 +33,20 @@ def representatives(q):
     return out
 
 
-def workloads(f, ch, rng):
+def block_frames(reps):
+    """frames per codec block of each representative format: what a one-frame file reports after close (1 for sample-granular encodings)"""
+    L = []
+    for (f, ch) in reps:
+        L += ["open 0 0 w %x %d 8000" % (f, ch), "w 0 s f 1 77", "close 0", "open 0 0 r %s" % ("%x %d 8000" % (f, ch) if formats.name(f).startswith("RAW/") else "0 0 0"), "close 0"]
+    rc, hl, err = sdrive.run_harness("\n".join(L) + "\n", "C15_probe")
+    out = {}
+    for i, (f, ch) in enumerate(reps):
+        d = hl.get(5 * i + 4, ("", {}, ""))[1]
+        out[(f, ch)] = max(1, int(d.get("frames", "1") or 1)) if d.get("ok") == "1" else 1
+    return out
+
+
+def workloads(f, ch, rng, B=1):
     """-> {name: (setup lines, body lines)}; body uses handle 1 on store 1; setup may prepare store 0"""
     nm = formats.name(f)
     mj, sb = nm.split("/")
@@ -43,8 +56,13 @@ def workloads(f, ch, rng):
     meta = ["str 1 set 1 7469746c65"] if mj in ("WAV", "WAVEX", "RF64", "AIFF", "CAF") else []
     W = {}
     W["write_close"] = ([], ["open 1 1 w %x %d 8000" % (f, ch)] + meta + ["w 1 %s f 150 %s" % (t, vals), "cmd 1 0x1060 0", "w 1 i i %d 1 -2 3 -4" % (60 * ch), "w 1 %s f 200 %s" % (t, vals), "close 1"])
-    prep = ["open 0 0 w %x %d 8000" % (f, ch)] + [m.replace(" 1 ", " 0 ", 1) for m in meta] + ["w 0 %s f 400 %s" % (t, vals), "close 0"]
-    W["open_read_seek_close"] = (prep, ["open 1 1 r %s" % raw, "r 1 s f 50", "r 1 f i %d" % (30 * ch), "seek 1 10 0", "r 1 i f 100", "seek 1 -20 2", "r 1 d f 40", "seek 1 5 1", "r 1 s f 1000", "close 1"])
+    # block codecs get a file of several blocks, so that block reads happen inside the read calls and not only at open
+    nprep = 400 if formats.is_granular(f) else 2600
+    prep = ["open 0 0 w %x %d 8000" % (f, ch)] + [m.replace(" 1 ", " 0 ", 1) for m in meta] + ["w 0 %s f %d %s" % (t, nprep, vals), "close 0"]
+    W["open_read_seek_close"] = (prep, ["open 1 1 r %s" % raw, "r 1 s f 50", "r 1 f i %d" % (30 * ch), "seek 1 10 0", "r 1 i f 100", "seek 1 -20 2", "r 1 d f 40", "seek 1 5 1", "r 1 s f %d" % (1000 if nprep == 400 else 3000), "close 1"])
+    if B > 1:
+        # reads that start exactly on block boundaries: the first thing such a call does is fetch a block
+        W["read_on_block_boundaries"] = (prep, ["open 1 1 r %s" % raw, "r 1 s i %d" % (B * ch), "r 1 i i %d" % (B * ch), "r 1 f i %d" % (2 * B * ch), "r 1 d i %d" % (B * ch), "r 1 s f 7", "close 1"])
     W["rdwr"] = (prep, ["open 1 1 x %s" % raw, "r 1 s f 20", "w 1 %s f 30 %s" % (t, vals), "seek 1 0 0", "r 1 s f 60", "seek 1 0 2", "w 1 %s f 10 %s" % (t, vals), "close 1"])
     return W
 
@@ -164,8 +182,9 @@ def run(ctx):
     # 1. fault-free runs: K = number of callbacks of each workload
     base = []
     wl_of = {}
+    BF = block_frames(reps)
     for (f, ch) in reps:
-        W = workloads(f, ch, rng)
+        W = workloads(f, ch, rng, BF.get((f, ch), 1))
         for wn, (setup, body) in W.items():
             nm = "%s|%s|free" % (formats.name(f), wn)
             wl_of[nm] = (setup, body)
